@@ -183,18 +183,21 @@ def Parser.resourceHeader (p : Parser) (sec : Nat) : Except PErr RH × Parser :=
       | .error e => (.error e, p)
       | .ok (h, off) => (.ok h, { p with rhValid := true, rh := h, off := off })
 
+/-- `skipResource` when no header is cached -/
+def Parser.skipResourceFresh (p : Parser) (sec : Nat) : Except PErr Unit × Parser :=
+  match p.checkAdvance sec with
+  | (.error e, p) => (.error e, p)
+  | (.ok (), p) =>
+    match skipResourceAt p.msg p.off with
+    | .error e => (.error e, p)
+    | .ok off => (.ok (), { p with off := off, index := p.index + 1 })
+
 def Parser.skipResource (p : Parser) (sec : Nat) : Except PErr Unit × Parser :=
   if p.rhValid then
     let newOff := p.off + p.rh.len
     if newOff > p.msg.length then (.error .resourceLen, p)
     else (.ok (), { p with off := newOff, rhValid := false, index := p.index + 1 })
-  else
-    match p.checkAdvance sec with
-    | (.error e, p) => (.error e, p)
-    | (.ok (), p) =>
-      match skipResourceAt p.msg p.off with
-      | .error e => (.error e, p)
-      | .ok off => (.ok (), { p with off := off, index := p.index + 1 })
+  else p.skipResourceFresh sec
 
 /-- `for { if err := skipX(); err == ErrSectionDone {return nil} else if err != nil {return err} }`
 Each successful iteration increments `index`; the count is < 65536, so 65536+1 iterations of fuel
